@@ -329,7 +329,7 @@ def apply(doc, case_seed, i, gen):
             o.name = 'N' + new
         return 'rename:' + name
     if kind == 'attr':
-        k = r.choice(['light', 'camera', 'effect', 'material', 'matnode', 'geomname', 'asset', 'image', 'nodename', 'geomds'])
+        k = r.choice(['light', 'camera', 'effect', 'material', 'matnode', 'geomname', 'asset', 'image', 'nodename', 'geomds', 'transform', 'transform'])
         if k == 'light' and doc.lights:
             l = r.choice(list(doc.lights))
             l.color = gen.color(3)
@@ -382,6 +382,23 @@ def apply(doc, case_seed, i, gen):
             a.unitname, a.unitmeter = r.choice([(None, None), ('foot', 0.3048)])
         elif k == 'image' and doc.images:
             r.choice(list(doc.images)).path = r.choice(['new/path.png', './p2.jpg'])
+        elif k == 'transform':
+            ts = [t for n in nodes for t in n.transforms]
+            if not ts:
+                return None
+            t = r.choice(ts)
+            tk = type(t).__name__
+            v = lambda: float(r.choice([0.0, 1.0, -2.0, 0.5, 3.0, 7.25]))
+            if tk in ('TranslateTransform', 'ScaleTransform'):
+                t.x, t.y, t.z = v(), v(), v()
+            elif tk == 'RotateTransform':
+                t.angle = float(r.choice([0, 90, 45, -30, 180]))
+                t.x, t.y, t.z = r.choice([(1.0, 0.0, 0.0), (0.0, 0.0, 1.0), (0.0, 0.6, 0.8)])
+            elif tk == 'MatrixTransform':
+                t.matrix[r.randrange(3)][r.randrange(4)] = numpy.float32(v())
+            else:
+                t.eye = numpy.array([v(), v(), 9.0], dtype=numpy.float32)
+                t.interest = numpy.array([v(), v(), -1.0], dtype=numpy.float32)
         elif k == 'nodename' and nodes:
             r.choice(nodes).name = r.choice(['renamed node', 'nn'])
         else:
